@@ -22,7 +22,8 @@ def showResult : Except PErr Result → String
     let seq := ",".intercalate (r.seq.map showEntry)
     let map := ";".intercalate (r.map.map fun (k, es) => s!"{Driver.hexChars k}={",".intercalate (es.map showEntry)}")
     let ws := ",".intercalate (r.warnings.map Warn.name)
-    s!"ok items=[{items}] seq=[{seq}] map=[{map}] warnings=[{ws}]"
+    let sc := ",".intercalate (r.seqConversions.map fun e => toString e.parent)
+    s!"ok items=[{items}] seq=[{seq}] map=[{map}] warnings=[{ws}] sc=[{sc}]"
 
 open I18n.Spec.CPyPercent in
 def parseVal (t : String) : Val :=
